@@ -80,9 +80,10 @@ Theorem C17_waiter_enabled : forall m acts,
 Proof. exact StreamQuota_proofs.waiter_enabled. Qed.
 Print Assumptions C17_waiter_enabled.
 
-Theorem C17_stream_waiters_quiescent : forall s, StreamQuota_proofs.Inv s -> StreamQuota_proofs.quiescent s ->
-  (StreamQuota.dead s = true -> StreamQuota.thr s = []) /\
-  (StreamQuota.dead s = false -> StreamQuota.thr s <> [] -> StreamQuota.quota s <= 0).
+Theorem C17_stream_waiters_quiescent : forall s held, StreamQuota_proofs.Inv s ->
+  StreamQuota_proofs.quiescent s held -> StreamQuota_proofs.held_blocked s held ->
+  (StreamQuota.dead s = true -> StreamQuota.parked s held = []) /\
+  (StreamQuota.dead s = false -> StreamQuota.parked s held <> [] -> StreamQuota.quota s <= 0).
 Proof. exact StreamQuota_proofs.quiescent_blocked_only_without_quota. Qed.
 Print Assumptions C17_stream_waiters_quiescent.
 
@@ -92,6 +93,18 @@ Theorem C17_holds_on_every_model_trace : forall i ops, forallb op_wf ops = true 
   exists obs, run [i; 0] ops = Some obs /\ holds_b [i; 0] ops obs = true.
 Proof. exact model_trace_holds. Qed.
 Print Assumptions C17_holds_on_every_model_trace.
+
+(* the other two kinds of cases of this check: stress cases (the model's observation is "no
+   lost wake-up, nothing hung") and stream-admission cases (bridge theorem of StreamQuota) *)
+Theorem C17_stress_trace_holds : forall i ops, forallb stress_wf ops = true ->
+  exists obs, run [i; 2] ops = Some obs /\ holds_b [i; 2] ops obs = true.
+Proof. exact stress_trace_holds. Qed.
+Print Assumptions C17_stress_trace_holds.
+
+Theorem C17_stream_trace_holds : forall m0 ops, forallb StreamQuota_proofs.op_wf ops = true ->
+  exists obs, StreamQuota.run [m0] ops = Some obs /\ StreamQuota.holds_b [m0] ops obs = true.
+Proof. exact StreamQuota_proofs.model_trace_holds. Qed.
+Print Assumptions C17_stream_trace_holds.
 
 Theorem C17_runner_steps_are_atomic_steps : forall s tid op s' o, Inv s ->
   op_step s tid op = Some (s', o) -> exists acts, s' = exec s acts.
